@@ -73,6 +73,7 @@ VECTORS = {
     "neg0": ([F(-3, 2), F(-3, 2), F(0), F(2, 7), F(9, 4), F(9, 4)], 1),
     "large": ([F(0), F(0), F(0), F(BIG, 3 * BIG + 1), F(2 * BIG + 1, 3 * BIG + 2), F(1), F(1), F(1)], 2),
     "cubic": ([F(0)] * 4 + [F(2, 5), F(2, 5), F(7, 9)] + [F(2)] * 4, 3),
+    "deg7": ([F(-1)] * 8 + [F(3, 2)] * 8, 7),
 }
 
 
@@ -135,7 +136,9 @@ def ops(U, p):
         err = dst.fit_curve(src)
         d2 = Curve([conv(u) for u in U])
         d2.fit_points([conv(F(i * i - 3, 2)) for i in range(n + 2)])
-        return [dst, err, d2]
+        d3 = Curve([conv(u) for u in U])
+        d3.fit_points([conv(F((-1) ** i * (i + 1), 3)) for i in range(n)])          # len(points) == npts: square system
+        return [dst, err, d2, d3]
 
     def t_integrate(conv, rat):
         return [calculus.Integrate.scalar(mk(False, conv))]
@@ -181,6 +184,17 @@ def task_exact(vname):
                     rf = None
                 re_ = f(lambda v: v, rat)
                 ok, bad = exact(re_)
+                if ok and name == "integrate":
+                    want = sum(P[i] * (U[i + p + 1] - U[i]) for i in range(len(P))) / (p + 1)
+                    if re_[0] != want:
+                        ok, bad = False, ["Integrate.scalar = %s, exact value %s" % (re_[0], want)]
+                if ok and name == "fit":
+                    Ut = [U[0]] * (p + 1) + [U[-1]] * (p + 1)
+                    Gtt, Gts = spec.gram(Ut, p, Ut, p), spec.gram(Ut, p, U, p)
+                    rhs = [[sum(Gts[i][j] * P[j] for j in range(len(P)))] for i in range(p + 1)]
+                    sol = [r[0] for r in spec.mat_solve(Gtt, rhs)]
+                    if list(re_[0].ctrlpoints) != sol:
+                        ok, bad = False, ["fit_curve control points %s, exact L2 projection %s" % ([str(x) for x in re_[0].ctrlpoints], [str(x) for x in sol])]
                 out.append(ob("%s:exact-types[%s]" % (fn, tag), fn, PROVED if ok else FAILED, "B", "concrete", 0.0,
                               "all numbers in the result are int / Fraction" if ok else "non-exact numbers in the result: %r" % (bad,),
                               None if ok else dict(kind="c16.exact", vector=vname, op=name, rational=rat)))
